@@ -33,6 +33,17 @@
 // two HTLCs with equal hash and expiry but different amounts, amounts with a sub-satoshi
 // part, and the mid-run long pause.
 //
+// Dimensions added after the round-e misses: (a) the forwarding POLICY of Bob (inbound fee
+// or discount on the incoming channel, proportional outbound fee; c08Policy) with payments
+// that offer exactly the demanded fee or one millisatoshi less (c08Pay.FeeDelta), judged by
+// the fee rule evaluated in big integers on both sides (forwarded => covered; failed with
+// fee_insufficient => not covered); (b) the ORDER in which Bob's two peers reconnect after
+// a restart or crash (SlowRestart), which decides whether a forwarding package replayed by
+// the incoming link reaches the switch's policy check or ends in unknown_next_peer; (c) the
+// slow re-establishment (SlowReest) on the INCOMING connection of a payment, so that the
+// response waits in the incoming link's volatile mailbox while the outgoing channel
+// completes, crossed with the long pause and a restart (gc/...@incoming).
+//
 // The default continuation is "launch a due payment; else deliver the globally oldest
 // deliverable message; else tick until two ticks changed nothing; else unfreeze; else
 // resolve an accepted hold invoice; else stop". Anything else is a deviation: a
@@ -614,6 +625,9 @@ func c08Spaces(thorough bool) []c08Scn {
 			if p.HashOf > 0 {
 				as += fmt.Sprintf("=h%d", p.HashOf-1)
 			}
+			if p.FeeDelta != 0 {
+				as += fmt.Sprintf("(fee%+d)", p.FeeDelta)
+			}
 			a = append(a, as)
 			at = append(at, strconv.Itoa(p.At))
 		}
@@ -623,7 +637,7 @@ func c08Spaces(thorough bool) []c08Scn {
 	// ---- product spaces (two payments, slow wire x fault) --------------------------
 	type pair struct{ k0, k1 string }
 	two := func(d0, d1 string, pr pair, a1 int64, at int) []c08Pay {
-		return []c08Pay{{d0, nonDust, pr.k0, 0, 0}, {d1, a1, pr.k1, at, 0}}
+		return []c08Pay{{Dir: d0, Amt: nonDust, Kind: pr.k0, At: 0}, {Dir: d1, Amt: a1, Kind: pr.k1, At: at}}
 	}
 	if !thorough {
 		ps := two("AC", "AC", pair{"valid", "valid"}, nonDust, 6)
@@ -653,7 +667,7 @@ func c08Spaces(thorough bool) []c08Scn {
 	for _, dir := range []string{"AC", "CA"} {
 		for _, k := range kinds {
 			for _, a := range []int64{dustLo, dustMid, nonDust, large} {
-				p := c08Pay{dir, a, k, 0, 0}
+				p := c08Pay{Dir: dir, Amt: a, Kind: k, At: 0}
 				twoAmts := a == dustLo || a == nonDust
 				switch {
 				case thorough && twoAmts && k != "wrongamt":
@@ -670,7 +684,7 @@ func c08Spaces(thorough bool) []c08Scn {
 			}
 		}
 		for _, a := range []int64{belowMin, polMin} {
-			p := c08Pay{dir, a, "valid", 0, 0}
+			p := c08Pay{Dir: dir, Amt: a, Kind: "valid", At: 0}
 			if thorough {
 				deep(pname(p), p)
 			} else {
@@ -713,7 +727,7 @@ func c08Spaces(thorough bool) []c08Scn {
 			if !thorough && (bc != 25_000 || k != "valid") {
 				continue
 			}
-			p := c08Pay{"AC", nonDust, k, 0, 0}
+			p := c08Pay{Dir: "AC", Amt: nonDust, Kind: k, At: 0}
 			if bc > 25_000 {
 				p.Amt = 2_000_000 * sat
 			}
@@ -736,7 +750,7 @@ func c08Spaces(thorough bool) []c08Scn {
 		firsts = []string{"unknown", "holdcancel", "valid"}
 	}
 	for _, k0 := range firsts {
-		ps := []c08Pay{{"AC", 25000 * sat, k0, 0, 0}, {"AC", 25000 * sat, "valid", 0, 0}}
+		ps := []c08Pay{{Dir: "AC", Amt: 25000 * sat, Kind: k0, At: 0}, {Dir: "AC", Amt: 25000 * sat, Kind: "valid", At: 0}}
 		sc := c08Scn{Name: "linkreject/" + pname(ps...) + "/bobBC=60000", Pays: ps, Dev: 1, Faults: 1, Total: 1, Freeze: true, BobBCSat: 60_000}
 		if thorough && k0 == "unknown" {
 			sc.Dev, sc.Faults, sc.Total = 2, 2, 2
@@ -752,7 +766,7 @@ func c08Spaces(thorough bool) []c08Scn {
 		expKinds = []string{"valid", "holdsettle", "unknown"}
 	}
 	for _, k := range expKinds {
-		p := c08Pay{"AC", nonDust, k, 0, 0}
+		p := c08Pay{Dir: "AC", Amt: nonDust, Kind: k, At: 0}
 		sc := c08Scn{Name: "expiry/" + pname(p) + "/cutBC+cutAB", Pays: []c08Pay{p}, Dev: 0, Faults: 2, Total: 2,
 			MailboxExpiryMs: 60, SlowReest: "C>B", FaultSeq: []string{"cut:BC", "cut:AB"}}
 		if thorough {
@@ -761,12 +775,13 @@ func c08Spaces(thorough bool) []c08Scn {
 		out = append(out, sc)
 	}
 	if thorough {
-		ps := []c08Pay{{"AC", nonDust, "valid", 0, 0}, {"AC", nonDust, "valid", 6, 0}}
+		ps := []c08Pay{{Dir: "AC", Amt: nonDust, Kind: "valid", At: 0}, {Dir: "AC", Amt: nonDust, Kind: "valid", At: 6}}
 		out = append(out, c08Scn{Name: "expiry/" + pname(ps...) + "/cutBC+cutAB", Pays: ps, Dev: 0, Faults: 2, Total: 2,
 			MailboxExpiryMs: 60, SlowReest: "C>B", FaultSeq: []string{"cut:BC", "cut:AB"}})
 	}
 	// the audit spaces go right after the product shards (large jobs first)
-	audit := c08AuditSpaces(thorough, pname)
+	audit, auditBig := c08AuditSpaces(thorough, pname)
+	deeps = append(deeps, auditBig...) // single large jobs: started first
 	merged := append([]c08Scn{}, out[:nProduct]...)
 	merged = append(merged, audit...)
 	merged = append(merged, out[nProduct:]...)
@@ -776,13 +791,12 @@ func c08Spaces(thorough bool) []c08Scn {
 // c08AuditSpaces: the dimensions added by the axis audit (configuration options, one
 // database / crash points, message variants, multiplicities, mid-run timer windows), each
 // crossed with the faults at every position. Amounts carry a sub-satoshi part.
-func c08AuditSpaces(thorough bool, pname func(...c08Pay) string) []c08Scn {
+func c08AuditSpaces(thorough bool, pname func(...c08Pay) string) (out, big []c08Scn) {
 	const (
 		sat     = 1000
 		nonDust = 20000*sat + 321 // an output on every commitment, 321 msat below the next satoshi
 		dustLo  = 3000*sat + 7    // dust on every commitment
 	)
-	var out []c08Scn
 	base := func(fam string, sc c08Scn, suffix string) {
 		sc.Name = fam + "/" + pname(sc.Pays...) + suffix
 		if sc.Dev == 0 && sc.Faults == 0 {
@@ -830,6 +844,64 @@ func c08AuditSpaces(thorough bool, pname func(...c08Pay) string) []c08Scn {
 		crash([]c08Pay{{Dir: "AC", Amt: nonDust, Kind: "valid"}, {Dir: "AC", Amt: nonDust, Kind: "valid", At: 6}}, 0)
 		crash([]c08Pay{{Dir: "AC", Amt: nonDust, Kind: "valid"}, {Dir: "CA", Amt: nonDust, Kind: "valid"}}, 0)
 		crash([]c08Pay{{Dir: "AC", Amt: nonDust, Kind: "holdsettle"}, {Dir: "AC", Amt: nonDust, Kind: "unknown", At: 6}}, 0)
+		// the other order of re-establishment after the crash (Alice slower than Carol),
+		// see SlowRestart: for A->C a replayed Add then finds the outgoing link eligible,
+		// for C->A it does not (the default order is the opposite in both cases)
+		for _, pays := range [][]c08Pay{one("AC", "valid", nonDust), one("CA", "valid", nonDust), one("AC", "holdsettle", dustLo)} {
+			sc := c08Scn{Pays: pays, Faults: 1, Total: 1, OneDB: true, Crash: true, FaultKinds: []string{"cb"}, SlowRestart: "A>B"}
+			sc.Name = "crash/" + pname(pays...) + "/slow=A>B"
+			out = append(out, sc)
+		}
+	}
+
+	// (2b) forwarding policy x crash points. Bob charges an inbound fee (surcharge) or grants
+	// an inbound discount on the incoming channel and a proportional outbound fee; the
+	// payment offers exactly the fee his policy demands, or one millisatoshi less. Crossed
+	// with every crash point of the default schedule: the first hand-over of the Add to the
+	// switch's policy check is then either the live one (revocation just received) or the
+	// REPLAY of the forwarding package after the restart (crash between the forward-filter
+	// write and the circuit commit), which rebuilds the packet from disk + configuration.
+	// Oracle: the fee rule in big integers (c08RequiredFee) on both sides -- forwarded =>
+	// covered; failed with fee_insufficient => not covered -- next to conservation.
+	surcharge := &c08Policy{InboundBase: 777, InboundRate: 12345, FeeRate: 2500}
+	discount := &c08Policy{InboundBase: -300, InboundRate: -1234, FeeRate: 2500}
+	polName := map[*c08Policy]string{surcharge: "surcharge", discount: "discount"}
+	polCrash := func(pol *c08Policy, dir string, kind string, amt, delta int64, dev int) {
+		pays := []c08Pay{{Dir: dir, Amt: amt, Kind: kind, FeeDelta: delta}}
+		sc := c08Scn{Pays: pays, Dev: dev, Faults: 1, Total: dev + 1, OneDB: true, Crash: true, FaultKinds: []string{"cb"}, Policy: pol}
+		// after the crash the payment's INCOMING connection is the slower one to come back,
+		// so that a replayed Add finds the outgoing link eligible (see SlowRestart)
+		sc.SlowRestart = map[string]string{"AC": "A>B", "CA": "C>B"}[dir]
+		sc.Name = "policy/crash/" + polName[pol] + "/" + pname(pays...) + "/slow=" + sc.SlowRestart
+		if dev > 0 {
+			sc.Name += fmt.Sprintf("/dev%d", dev)
+		}
+		out = append(out, sc)
+	}
+	for _, pol := range []*c08Policy{surcharge, discount} {
+		for _, delta := range []int64{0, -1} {
+			polCrash(pol, "AC", "valid", nonDust, delta, 0)
+			if thorough {
+				polCrash(pol, "CA", "valid", nonDust, delta, 0)
+				polCrash(pol, "AC", "holdsettle", dustLo, delta, 0)
+			}
+		}
+	}
+	if thorough {
+		polCrash(surcharge, "AC", "valid", nonDust, 1, 0)
+		polCrash(discount, "CA", "unknown", nonDust, 0, 0)
+		polCrash(surcharge, "AC", "valid", nonDust, -1, 1)
+		polCrash(discount, "AC", "valid", nonDust, 0, 1)
+		// the policy dimension under the graceful faults and schedule deviations (base budget)
+		for _, pol := range []*c08Policy{surcharge, discount} {
+			for _, delta := range []int64{0, -1} {
+				for _, dir := range []string{"AC", "CA"} {
+					base("policy/base/"+polName[pol], c08Scn{Pays: []c08Pay{{Dir: dir, Amt: nonDust, Kind: "valid", FeeDelta: delta}}, OneDB: true, Policy: pol,
+						Dev: 1, Faults: 1, Total: 1, Freeze: true}, "")
+				}
+			}
+			base("policy/base/"+polName[pol], c08Scn{Pays: []c08Pay{{Dir: "AC", Amt: nonDust, Kind: "valid"}, {Dir: "AC", Amt: dustLo, Kind: "valid", At: 6, FeeDelta: -1}}, OneDB: true, Policy: pol}, "")
+		}
 	}
 
 	// (3) message variant update_fail_malformed_htlc: the receiver ("malformed") or
@@ -881,6 +953,63 @@ func c08AuditSpaces(thorough bool, pname func(...c08Pay) string) []c08Scn {
 		out = append(out, c08Scn{Name: "gc/" + pname(p...) + "/cutBC@pending+L+rb", Pays: p, Dev: 1, Faults: 2, Total: 3,
 			LongIdle: true, OnlyLong: true, OneDB: true, SlowReest: "C>B", FaultSeq: []string{"cut:BC", "rb"}, FirstFaultPending: true})
 	}
+	// (6b) the mirror image on the RESPONSE path: the connection of the payment's INCOMING
+	// channel drops (at every position) and is slow to come back, so Bob's incoming link
+	// cannot commit anything while the outgoing channel carries on: the settle / fail that
+	// comes back closes the circuit in the switch and then waits in the incoming link's
+	// volatile mailbox, the outgoing channel finishes its commitment dance and hands the
+	// locked-in response to the switch a second time. A long pause at every idle point (the
+	// switch's 15 s ack ticker, the links' package collector), then Bob restarts at every
+	// later position: the only durable copy of the response is the outgoing channel's
+	// forwarding package, which must therefore still be un-acked -- otherwise the incoming
+	// HTLC is never settled / failed back. respgc(dir, kind) picks the cut and the slow wire
+	// from the payment's direction.
+	respgc := func(dir, kind string, amt int64) {
+		cut, slow := "cut:AB", "A>B"
+		if dir == "CA" {
+			cut, slow = "cut:BC", "C>B"
+		}
+		p := one(dir, kind, amt)
+		sc := c08Scn{Name: "gc/" + pname(p...) + "/" + strings.ReplaceAll(cut, ":", "") + "@incoming+L+rb", Pays: p, Dev: 1, Faults: 2, Total: 3,
+			LongIdle: true, OnlyLong: true, OneDB: true, SlowReest: slow, FaultSeq: []string{cut, "rb"}}
+		if thorough {
+			// started with the first jobs: on a loaded machine the thorough tier is cut short by
+			// its time budget and this family must not be among the spaces that are never started
+			big = append(big, sc)
+			return
+		}
+		out = append(out, sc)
+	}
+	respgc("AC", "valid", nonDust)
+	respgc("CA", "unknown", nonDust)
+	if thorough {
+		respgc("CA", "valid", nonDust)
+		respgc("AC", "unknown", dustLo)
+		respgc("AC", "holdsettle", nonDust)
+		respgc("AC", "holdcancel", nonDust)
+		respgc("CA", "malformed", nonDust)
+		// ... and the variant in which the OUTGOING link is the one that replays the
+		// locked-in response: incoming connection slow, then the outgoing connection drops
+		// too (its link re-forwards the response from its forwarding package), pause, restart
+		for _, d := range []struct{ dir, kind string }{{"AC", "valid"}, {"CA", "unknown"}} {
+			seq, slow := []string{"cut:AB", "cut:BC", "rb"}, "A>B"
+			if d.dir == "CA" {
+				seq, slow = []string{"cut:BC", "cut:AB", "rb"}, "C>B"
+			}
+			p := one(d.dir, d.kind, nonDust)
+			big = append(big, c08Scn{Name: "gc/" + pname(p...) + "/" + strings.ReplaceAll(strings.Join(seq, "+"), ":", "") + "@incoming+L", Pays: p, Dev: 1, Faults: 3, Total: 4,
+				LongIdle: true, OnlyLong: true, OneDB: true, SlowReest: slow, FaultSeq: seq})
+		}
+	}
+	if thorough {
+		// ... and the variant without any connection loss: the incoming peer merely owes a
+		// revocation (its wire towards Bob is slow: fz) when the response of the first of two
+		// payments comes back, so the incoming link holds the response as an unsigned update
+		ps := []c08Pay{{Dir: "AC", Amt: nonDust, Kind: "valid"}, {Dir: "AC", Amt: nonDust, Kind: "valid", At: 6}}
+		// (measured: 6.9 k states, 2.2 k executions, 5.5 min as one job)
+		big = append(big, c08Scn{Name: "gc/" + pname(ps...) + "/fzAB+L+rb", Pays: ps, Dev: 2, Faults: 1, Total: 3,
+			LongIdle: true, OnlyLong: true, Freeze: true, FreezeWires: []string{"A>B"}, OneDB: true, FaultKinds: []string{"rb"}})
+	}
 	// THOROUGH ONLY: a long pause (past the switch's 10 s / 15 s tickers and the links'
 	// 15 s forwarding-package collector) in the MIDDLE of an execution -- while an HTLC is
 	// held (long/), or while a forwarded Add waits in the mailbox of an outgoing link whose
@@ -902,20 +1031,20 @@ func c08AuditSpaces(thorough bool, pname func(...c08Pay) string) []c08Scn {
 				LongIdle: true, OnlyLong: true, OneDB: true, SlowReest: "C>B", FaultSeq: []string{"cut:BC", "rb"}})
 		}
 	}
-	return out
+	return out, big
 }
 
 // gate scenarios: fixed event lists (default schedule with the listed deviations)
 func c08GateCases() []c08Job {
-	valid := c08Pay{"AC", 20_000_000, "valid", 0, 0}
-	back := c08Pay{"CA", 3_000_000, "valid", 6, 0}
-	hold := c08Pay{"AC", 20_000_000, "holdsettle", 0, 0}
-	unk := c08Pay{"CA", 20_000_000, "unknown", 4, 0}
+	valid := c08Pay{Dir: "AC", Amt: 20_000_000, Kind: "valid", At: 0}
+	back := c08Pay{Dir: "CA", Amt: 3_000_000, Kind: "valid", At: 6}
+	hold := c08Pay{Dir: "AC", Amt: 20_000_000, Kind: "holdsettle", At: 0}
+	unk := c08Pay{Dir: "CA", Amt: 20_000_000, Kind: "unknown", At: 4}
 	return []c08Job{
 		{Mode: "replay", Scn: c08Scn{Name: "gate/2p-default", Pays: []c08Pay{valid, back}, Faults: 2, Dev: 2}},
 		{Mode: "replay", Scn: c08Scn{Name: "gate/2p-cutBC+restartBob", Pays: []c08Pay{valid, back}, Faults: 2, Dev: 2},
 			Hist: strings.Fields("pay0 d:A>B T d:A>B d:B>A d:B>A pay1 d:A>B cut:BC d:B>C d:C>B d:C>B d:B>C T d:B>C d:C>B d:C>B d:B>C d:B>C d:C>B d:C>B rb")},
-		{Mode: "replay", Scn: c08Scn{Name: "gate/2p-slowAB+restartBob", Pays: []c08Pay{valid, {"AC", 20_000_000, "valid", 6, 0}}, Faults: 2, Dev: 2, Freeze: true},
+		{Mode: "replay", Scn: c08Scn{Name: "gate/2p-slowAB+restartBob", Pays: []c08Pay{valid, {Dir: "AC", Amt: 20_000_000, Kind: "valid", At: 6}}, Faults: 2, Dev: 2, Freeze: true},
 			Hist: strings.Fields("pay0 d:A>B T d:A>B d:B>A d:B>A pay1 d:A>B d:A>B d:B>C T d:A>B d:B>C d:B>A d:B>A d:C>B d:C>B d:A>B d:B>C d:B>C d:C>B d:C>B d:B>A d:B>A d:B>C d:B>C fz:A>B d:C>B d:C>B d:B>C d:C>B d:C>B d:B>A d:B>C d:B>C d:C>B T T un:A>B rb")},
 		{Mode: "replay", Scn: c08Scn{Name: "gate/hold+unknown-cutAB", Pays: []c08Pay{hold, unk}, Faults: 2, Dev: 2},
 			Hist: strings.Fields("pay0 d:A>B T d:A>B pay1 d:B>A T cut:AB")},
@@ -925,6 +1054,16 @@ func c08GateCases() []c08Job {
 		// an onion Bob cannot parse next to a forwarded payment, a long pause, a cut
 		{Mode: "replay", Scn: c08Scn{Name: "gate/badonion+hold-long-cutBC", Pays: []c08Pay{{Dir: "AC", Amt: 3_000_007, Kind: "badonion"}, {Dir: "AC", Amt: 20_000_321, Kind: "holdsettle"}}, Faults: 1, Dev: 1, OneDB: true, LongIdle: true},
 			Hist: strings.Fields("pay0 pay1 d:A>B d:A>B T d:A>B d:B>A d:B>A d:A>B d:B>A d:B>A d:B>C d:A>B d:A>B d:B>A T d:B>C d:C>B d:C>B d:B>C T T L cut:BC")},
+		// inbound discount + proportional fee, Bob dies between the forward-filter write and the
+		// circuit commit, Alice is the slower peer to reconnect: the replayed Add runs through the policy check
+		{Mode: "replay", Scn: c08Scn{Name: "gate/policy-crash-slowrestart", Pays: []c08Pay{{Dir: "AC", Amt: 20_000_321, Kind: "valid"}}, Faults: 1, OneDB: true, Crash: true,
+			Policy: &c08Policy{InboundBase: -300, InboundRate: -1234, FeeRate: 2500}, SlowRestart: "A>B"},
+			Hist: strings.Fields("pay0 d:A>B T d:A>B d:B>A d:B>A cb:2")},
+		// the incoming connection drops before the settle comes back and is slow to return, the
+		// outgoing channel finishes, long pause (ack ticker), Bob restarts
+		{Mode: "replay", Scn: c08Scn{Name: "gate/cutAB-slow+long+restartBob", Pays: []c08Pay{{Dir: "AC", Amt: 20_000_321, Kind: "valid"}}, Faults: 2, Dev: 1, OneDB: true, LongIdle: true, OnlyLong: true,
+			SlowReest: "A>B", FaultSeq: []string{"cut:AB", "rb"}},
+			Hist: strings.Fields("pay0 d:A>B T d:A>B d:B>A d:B>A d:A>B d:B>C T d:B>C d:C>B d:C>B d:B>C cut:AB d:C>B d:C>B d:B>A d:B>C d:B>C d:C>B T T L un:A>B rb")},
 	}
 }
 
@@ -1302,7 +1441,7 @@ func TestC08(t *testing.T) {
 	if len(divergeAt) > 0 {
 		cov["replay_divergence_examples"] = divergeAt
 	}
-	cov["rule"] = "per space (payment batch + budgets, see per_space): every event schedule of the real three-hop network (inside a synctest bubble) with at most Dev schedule deviations (out-of-order delivery, early tick, early hold resolution, slow wire fz/un) and at most Faults fault events (cut:AB, cut:BC, restart Bob), at most Total of both, relative to the default 'deliver the oldest message, tick when nothing is in flight'; base = 1/1/1, deep = 2/2/2, onedb / onion / shard / cfg = base budget on the audit dimensions (one database for Bob, undecodable onions, equal-hash HTLC pairs, RejectHTLC / MaxFeeExposure), crash = the default schedule with Bob dying after the k-th write transaction of every event that reaches him (every k up to a bound above the measured maximum), gc = connection loss while a forwarded Add is unsigned + a 20 s pause at every idle point + restart of Bob at every later point, linkreject = base budget on batches where Bob's outgoing link itself rejects an Add, expiry = cut:BC then cut:AB with a 60 ms mailbox timeout and a slow re-establishment, product = one slow wire x one fault (sharded by wire and fault kind, shards share their default prefix so sums over shards count those states once per shard); an evaluation = one execution (a fresh network replaying an event list); distinct_nontrivial = distinct canonical quiescent states (commitments of all four channel ends, circuit counts, wires, payment and invoice states, forwarding-package progress, budgets used) reached after at least one event, summed over spaces, each of which had the per-state oracle clauses evaluated; terminal_executions had the conservation clauses evaluated"
+	cov["rule"] = "per space (payment batch + budgets, see per_space): every event schedule of the real three-hop network (inside a synctest bubble) with at most Dev schedule deviations (out-of-order delivery, early tick, early hold resolution, slow wire fz/un) and at most Faults fault events (cut:AB, cut:BC, restart Bob), at most Total of both, relative to the default 'deliver the oldest message, tick when nothing is in flight'; base = 1/1/1, deep = 2/2/2, onedb / onion / shard / cfg = base budget on the audit dimensions (one database for Bob, undecodable onions, equal-hash HTLC pairs, RejectHTLC / MaxFeeExposure), crash = the default schedule with Bob dying after the k-th write transaction of every event that reaches him (every k up to a bound above the measured maximum), gc = connection loss while a forwarded Add is unsigned + a 20 s pause at every idle point + restart of Bob at every later point, gc/...@incoming = loss of the payment's INCOMING connection at every point with a slow re-establishment (the settle/fail waits in the incoming link's mailbox while the outgoing channel completes) + a 20 s pause at every idle point + restart of Bob at every later point, policy/crash = the crash enumeration with an inbound surcharge / discount and a proportional fee configured at Bob, payments offering exactly the demanded fee or 1 msat less, the payment's incoming peer being the slower one to reconnect after the crash (a replayed Add then reaches the policy check), judged by the big-integer fee rule on the accepting and the rejecting side, linkreject = base budget on batches where Bob's outgoing link itself rejects an Add, expiry = cut:BC then cut:AB with a 60 ms mailbox timeout and a slow re-establishment, product = one slow wire x one fault (sharded by wire and fault kind, shards share their default prefix so sums over shards count those states once per shard); an evaluation = one execution (a fresh network replaying an event list); distinct_nontrivial = distinct canonical quiescent states (commitments of all four channel ends, circuit counts, wires, payment and invoice states, forwarding-package progress, budgets used) reached after at least one event, summed over spaces, each of which had the per-state oracle clauses evaluated; terminal_executions had the conservation clauses evaluated"
 	sl := samples.List()
 	if len(sl) == 0 {
 		sl = []any{"none"}
